@@ -27,7 +27,9 @@ Record Compiled (p : prog) (s1 s2f s3 : st) (s2 : st) (out : list nat) (g : grap
   CP_trace : exists s0 ante, InitSpec s1 s0 ante /\ asteps (with_rewriting s0 true, []) (s2, []);
   CP_cov : Covered s2f;
   CP_optimize : exists ok, optimize T false true true s1 = Ok (s2f, ok);
-  CP_topo : topological_sort s2f = Ok s3
+  CP_topo : topological_sort s2f = Ok s3;
+  CP_init : exists s0 ante, init_topo s1 = Ok (s0, ante) /\ InitSpec s1 s0 ante /\
+                            asteps (with_rewriting s0 true, []) (s2, [])
 }.
 
 Theorem compile_total : forall p s1, build_graph T p = Ok s1 ->
@@ -48,4 +50,5 @@ Proof.
     + exists s0, ante. auto.
     + eapply Reindexed_Covered; eauto.
     + exists ok; auto.
+    + exists s0, ante. auto.
 Qed.
